@@ -123,20 +123,7 @@ func checkC02(w *World, r *Report) {
 		return
 	}
 	// compare helper: fsm function (pebble.Reader, []*Compare) → (bool, error)
-	var cmpFn *ssa.Function
-	sp := w.SSAPkg(fsmRel)
-	for _, m := range sp.Members {
-		fn, ok := m.(*ssa.Function)
-		if !ok || len(fn.Params) != 2 {
-			continue
-		}
-		if !typeIs(fn.Params[0].Type(), pebblePath, "Reader") {
-			continue
-		}
-		if s, ok := fn.Params[1].Type().Underlying().(*types.Slice); ok && typeIs(s.Elem(), pbPkg, "Compare") {
-			cmpFn = fn
-		}
-	}
+	cmpFn := a.CompareHelper()
 	if cmpFn == nil {
 		ob := r.Ob("C02.anchors", "anchors", "compare helper resolves", "")
 		ob.Undecided("compare-helper", "no function (pebble.Reader, []*regattapb.Compare) in "+fsmRel)
@@ -242,9 +229,29 @@ func c02Branch(w *World, r *Report, a *FsmA, cmpFn *ssa.Function) {
 					ob.Violate(fmt.Sprintf("branch-%s-applications@%s", want, FnName(wfn)), iff.Pos(), fmt.Sprintf("%d operation-list applications are reachable on the %s edge, exactly one expected", len(applies), want))
 					continue
 				}
-				src := resolve(listOf(applies[0]))
+				// a list selected before the single application (`branch := fail; if ok { branch = success }`)
+				// is a phi: on this outcome it carries the edges not taken only under the other outcome
+				var sourcesOn func(v ssa.Value, outcome bool, d int) []string
+				sourcesOn = func(v ssa.Value, outcome bool, d int) []string {
+					if phi, isPhi := v.(*ssa.Phi); isPhi && d < 4 {
+						var out []string
+						for i, e := range phi.Edges {
+							pred := phi.Block().Preds[i]
+							if outcome && edgeEstablishes(pred, phi.Block(), LNotBool(Expr(okv))) {
+								continue
+							}
+							if !outcome && edgeEstablishes(pred, phi.Block(), LBool(Expr(okv))) {
+								continue
+							}
+							out = append(out, sourcesOn(e, outcome, d+1)...)
+						}
+						return out
+					}
+					return []string{resolve(v)}
+				}
+				src := strings.Join(uniq(sourcesOn(listOf(applies[0]), k == 0, 0)), "|")
 				ob.Site(applies[0].Pos(), "on the "+want+" edge the list `"+src+"` is applied")
-				if !strings.HasSuffix(src, "."+want) {
+				if !strings.HasSuffix(src, "."+want) || strings.Contains(src, "|") {
 					ob.Violate("branch-list/"+want+"@"+FnName(wfn), applies[0].Pos(), "on the compare-"+map[int]string{0: "true", 1: "false"}[k]+" edge the list `"+src+"` is applied, expected the transaction's "+want+" list")
 				}
 				// reported flag on this edge
@@ -340,9 +347,10 @@ func c02Branch(w *World, r *Report, a *FsmA, cmpFn *ssa.Function) {
 	} else {
 		ob.Undecided("anchor@ActiveTable.Txn", "storage/table.ActiveTable.Txn not found")
 	}
-	// ---- read-only path in Lookup ----
-	if _, okv, iff := findCompareSplit(a.Lookup, cmpFn); iff != nil {
-		ob.Site(iff.Pos(), "branch on compare result in Lookup")
+	// ---- read-only path in Lookup (or the helper Lookup hands the transaction to) ----
+	ro := a.ROTxn()
+	if _, okv, iff := findCompareSplit(ro, cmpFn); iff != nil {
+		ob.Site(iff.Pos(), "branch on compare result in "+FnName(ro))
 		for k, forbidden := range []string{"Failure", "Success"} {
 			for _, in := range (&Walk{}).ReachableInstrs(Loc{iff.Block().Succs[k], 0}) {
 				if fa, isF := in.(*ssa.FieldAddr); isF && typeIs(fa.X.Type(), pbPkg, "TxnRequest") && fieldAddrName(fa) == forbidden {
@@ -352,7 +360,7 @@ func c02Branch(w *World, r *Report, a *FsmA, cmpFn *ssa.Function) {
 		}
 		for _, want := range []string{"Success", "Failure"} {
 			n := 0
-			eachInstr(a.Lookup, func(in ssa.Instruction) {
+			eachInstr(ro, func(in ssa.Instruction) {
 				if fa, isF := in.(*ssa.FieldAddr); isF && typeIs(fa.X.Type(), pbPkg, "TxnRequest") && fieldAddrName(fa) == want {
 					n++
 				}
@@ -362,7 +370,7 @@ func c02Branch(w *World, r *Report, a *FsmA, cmpFn *ssa.Function) {
 			}
 		}
 		found := false
-		eachInstr(a.Lookup, func(in ssa.Instruction) {
+		eachInstr(ro, func(in ssa.Instruction) {
 			st, isS := in.(*ssa.Store)
 			if !isS {
 				return
@@ -378,7 +386,7 @@ func c02Branch(w *World, r *Report, a *FsmA, cmpFn *ssa.Function) {
 			}
 		})
 		if !found {
-			ob.Violate("lookup-succeeded", a.Lookup.Pos(), "the read-only path never sets Succeeded")
+			ob.Violate("lookup-succeeded", ro.Pos(), "the read-only path never sets Succeeded")
 		}
 	} else {
 		ob.Undecided("lookup-shape", "the read-only transaction path in Lookup does not branch on the compare helper's result")
@@ -731,19 +739,24 @@ func c02Responses(w *World, r *Report, a *FsmA) {
 	} else {
 		ob.Undecided("anchor@handleTxnOps", "transaction operation loop not found")
 	}
-	check(a.Lookup, false)
-	ob.NeedFloor(9)
+	check(a.ROTxn(), false)
+	ob.NeedFloor(6)
 }
 
 func c02OneSnapshot(w *World, r *Report, a *FsmA, id, slug string) {
 	ob := r.Ob(id, slug, "in the read-only transaction arm of Lookup every pebble.Reader handed to the compare helper and to the range reads is the same NewSnapshot() result", "predicates and reads on different views are not atomic")
+	ro := a.ROTxn()
 	var arm *ssa.BasicBlock
 	ctx := &ExprCtx{}
-	for _, b := range a.Lookup.Blocks {
-		for k := range b.Succs {
-			for _, l := range ctx.EdgeLits(b, k) {
-				if l.Kind == "eq" && !l.Neg && strings.HasPrefix(l.A, "dyn(") && l.B == "*regattapb.TxnRequest" {
-					arm = b.Succs[k]
+	if ro != a.Lookup {
+		arm = ro.Blocks[0] // the arm hands the transaction to a helper: the helper is the arm
+	} else {
+		for _, b := range ro.Blocks {
+			for k := range b.Succs {
+				for _, l := range ctx.EdgeLits(b, k) {
+					if l.Kind == "eq" && !l.Neg && strings.HasPrefix(l.A, "dyn(") && l.B == "*regattapb.TxnRequest" {
+						arm = b.Succs[k]
+					}
 				}
 			}
 		}
@@ -753,7 +766,7 @@ func c02OneSnapshot(w *World, r *Report, a *FsmA, id, slug string) {
 		return
 	}
 	var views []ssa.Value
-	for _, b := range a.Lookup.Blocks {
+	for _, b := range ro.Blocks {
 		if !arm.Dominates(b) {
 			continue
 		}
